@@ -2,6 +2,8 @@
 From IggyV Require Import Base.Tactics Base.ListX Model.Part Model.PartSpec Proofs.PartBasics Proofs.PartHistory Proofs.PartCounts Proofs.CacheHistory Proofs.OffsetsHistory Proofs.ReadExact Proofs.ReadPart Proofs.ReadHistory Proofs.ExpiryBasics Proofs.ExpiryHistory Proofs.DedupHistory Proofs.TsPolls Proofs.Refine.
 Open Scope N_scope.
 
+(* The unguarded statement (kept for reference; false for a poll with count 0, which the real server refuses before the partition
+   is reached: Props/C02.v C02_full_unguarded_refuted).  Its guarded form is PROVED below as C16_refinement. *)
 Definition C16_full : Prop := forall c t0 ops, model_check c t0 ops = 0.
 
 (* PROVED (per operation): an accepted send adds exactly the number of stored messages to the count and their
